@@ -238,7 +238,7 @@ class FuncIndex:
         return self.enclosing(n, ("LambdaExpr",))
 
     # ---- guards: conditions known to hold when n executes --------------------------
-    def guards(self, n, stop_at=None):
+    def guards(self, n, stop_at=None, through_lambdas=False):
         """List of (condition expr, polarity) that structurally dominate n:
         enclosing if/loop conditions plus preceding 'if(c) <always exits>' statements in
         enclosing statement sequences."""
@@ -273,7 +273,7 @@ class FuncIndex:
                             out.append((prev["cond"], False))
                         elif isinstance(prev.get("else"), dict) and always_exits(prev["else"]) and not always_exits(prev["then"]):
                             out.append((prev["cond"], True))
-            if k == "LambdaExpr":
+            if k == "LambdaExpr" and not through_lambdas:
                 break
         return out
 
